@@ -19,6 +19,7 @@ var simKinds = map[string][]string{
 	"C04": {"unjustified-notification", "first-notification-without-firing", "resolved-only-after-resolved-only", "repeat-late", "harness-or-api-error"},
 	"C05": {"resolved-sent-without-send-resolved", "resolved-before-end", "resolved-not-true", "firing-not-true", "resolved-not-reported", "knowledge-missing", "api-groups", "harness-or-api-error"},
 	"C06": {"foreign-alert", "group-labels", "wrong-receiver", "missing-alert-in-notification", "group-key", "api-groups", "harness-or-api-error"},
+	"C13": {"api-alerts", "api-receivers", "harness-or-api-error"},
 	"C15": {"time-muted-flush-notified", "api-muted-by", "harness-or-api-error"},
 }
 
@@ -252,4 +253,43 @@ func TestC08Healthy(t *testing.T) {
 
 func TestC08Faulty(t *testing.T) {
 	runClusterCheck(t, "C08Faulty", "1-3 real instances in one bubble with a harness-owned gossip network: message drop/long delay/duplication, link down/up, crash and restart with clean/stale/no snapshot, inconsistent position views, skewed posts, receiver faults, periodic full-state exchange. Single firing episode per alert (no re-fire after a resolve). Oracles: at-least-once (firing and resolved obligations over the union of deliveries, witnessed by an instance that was up since before the alert's first submission) and the conditional no-duplicate form (the sender's own log entry at the attempt must not cover the notification). Non-trivial: n>=2, a gossip message was actually lost or blocked, and deliveries happened.", false)
+}
+
+func TestC15Sim(t *testing.T) {
+	runSimCheck(t, simCheck{
+		Property: "C15", Name: "C15Sim",
+		Rule:   "whole-system scenarios whose routes carry mute / active time intervals around the bubble's epoch: no notification at a flush whose tick a mute interval contains (or no active interval contains); GET /alerts/groups mutedBy equals the intervals that gated the group's last flush. Non-trivial: the config has an interval referenced by a route and a flush was gated (a flush without attempt while the group had firing alerts).",
+		Params: sim.GenParams{Intervals: true, Gets: true, Silences: true},
+		NonTrivial: func(st sim.Stats, sc *sim.Scenario, _ *sim.Trace) bool {
+			return len(sc.Config.Intervals) > 0 && st.DedupedFlushes > 0 && st.SuppressionChecked > 0
+		},
+	})
+}
+
+func TestC13Sim(t *testing.T) {
+	runSimCheck(t, simCheck{
+		Property: "C13", Name: "C13Sim",
+		Rule:   "whole-system scenarios: at every get-alerts step and at the end GET /api/v2/alerts returns exactly the reference store's alerts whose end has not passed, with the merged start/end and the receivers routing selects (routing trees, provider GC, dispatcher and pipeline running). Non-trivial: >=1 GET compared a non-empty store and an alert was re-submitted.",
+		Params: sim.GenParams{Gets: true, Silences: true, Inhibit: true},
+		NonTrivial: func(st sim.Stats, sc *sim.Scenario, tr *sim.Trace) bool {
+			seen := map[int]int{}
+			for _, s := range sc.Steps {
+				for _, a := range s.Alerts {
+					seen[a.LS]++
+				}
+			}
+			re := false
+			for _, n := range seen {
+				if n > 1 {
+					re = true
+				}
+			}
+			for _, smp := range tr.Samples {
+				if len(smp.Alerts) > 0 && re {
+					return true
+				}
+			}
+			return false
+		},
+	})
 }
